@@ -1022,6 +1022,37 @@ func (c *Ctx) ruleReportGate(onlyPkgs ...string) {
 			}
 		}
 		c.check(gated, "REPORT-GATE/GATE", name, where, "Report is guarded by !r.ignoreSet.Contains(v.GetCode(), v.GetPos())", "the diagnostic is reported without consulting the ignore set for this violation's own code and position")
+		// ... and by nothing else: a violation that passes the gate is reported (no memory of earlier reports, no
+		// other filter in the sink)
+		var extra []string
+		var benign func(l Lit) bool
+		benign = func(l Lit) bool {
+			if l.Kind == "rangeloop" || l.Kind == "rangefunc" || nilCheck(l) {
+				return true
+			}
+			if call := P.litCallTo(l, fnIgnoreContain); call != nil {
+				return true
+			}
+			if lenCheck(l) {
+				return true // nothing to report
+			}
+			if (l.Kind == "and" || l.Kind == "or") && len(l.Subs) > 0 {
+				for _, sl := range l.Subs {
+					if !benign(sl) {
+						return false
+					}
+				}
+				return true
+			}
+			return false
+		}
+		for _, l := range P.BlockGuards(rep.Block()) {
+			if !benign(l) {
+				extra = append(extra, short(l.String()))
+			}
+		}
+		c.check(len(extra) == 0, "REPORT-GATE/ONLY-GATE", name, where, "whether a violation is reported depends on the ignore set only",
+			"the sink drops violations under a condition that is not the ignore set: "+strings.Join(extra, "; "))
 		c.check(posV != nil && isGet(posV, "GetPos"), "REPORT-GATE/POS", name, where, "Diagnostic.Pos = v.GetPos() (the position that was looked up in the ignore set)", "the diagnostic is positioned elsewhere than the position checked against @ignore")
 		okMsg := false
 		if msgV != nil {
